@@ -382,6 +382,27 @@ func utf8Inputs(c *Ctx) (pool [][]byte) {
 			}
 		}
 	}
+	// mixtures of well-formed runes at the edges of the code space (among them a correctly encoded U+FFFD, which must
+	// stay one character) with every kind of ill-formed fragment, 2 to 5 pieces each
+	good := []string{"A", "\x00", "\x7f", "\u0080", "\u07ff", "\u0800", "\ud7ff", "\ue000", "\ufffd", "\ufffe", "\uffff", "\U00010000", "\U0010ffff", "é", "€", "𝄞"}
+	bad := []string{"\x80", "\xbf", "\xc0\x80", "\xc1\xbf", "\xc2", "\xe0\x80\x80", "\xe0\x9f\xbf", "\xed\xa0\x80", "\xed\xbf\xbf", "\xe2\x82", "\xef\xbf",
+		"\xf0\x80\x80\x80", "\xf0\x8f\xbf\xbf", "\xf4\x90\x80\x80", "\xf5\x80\x80\x80", "\xf0\x9d\x84", "\xf0\x9d", "\xf0", "\xff", "\xfe", "\xf8\x88\x80\x80\x80"}
+	for _, bd := range bad {
+		for _, gd := range good {
+			pool = append(pool, []byte(bd+gd), []byte(gd+bd), []byte(gd+bd+gd), []byte(bd+gd+bd))
+		}
+	}
+	for i := 0; i < c.scale(2000, 20000); i++ {
+		var b []byte
+		for k := 2 + c.Rng.Intn(4); k > 0; k-- {
+			if c.Rng.Intn(3) == 0 {
+				b = append(b, bad[c.Rng.Intn(len(bad))]...)
+			} else {
+				b = append(b, good[c.Rng.Intn(len(good))]...)
+			}
+		}
+		pool = append(pool, b)
+	}
 	g := c.gen()
 	for i := 0; i < c.scale(3000, 30000); i++ {
 		n := 1 + c.Rng.Intn(12)
